@@ -394,6 +394,139 @@ def time_sink(cfg, art, node, arg, cond, where, rep):
                expected="a dominating year-range test or an Err return", found="no bound on the year", sp=node.get("sp"))
 
 
+# ---------------------------------------------------------------------------------------------------------------------
+# C10.term: nothing fails to terminate
+# ---------------------------------------------------------------------------------------------------------------------
+# strongly connected components of the local call graph that were read and found to terminate: sorted member tuple -> why
+RECURSION_AUDIT = {
+}
+# `loop` / `while` statements that were read and found to terminate: function -> why
+LOOP_AUDIT = {
+}
+INFINITE_ITER = ("std::iter::Repeat", "std::iter::Cycle", "std::ops::RangeFrom", "std::iter::Successors", "std::iter::FromFn", "std::iter::RepeatWith")
+
+
+def call_graph(crate):
+    """Resolved local call graph: MIR Call terminators (trait calls resolved to the selected impl; `into` /
+    `try_into` forwarded through core's blanket impls to the From / TryFrom impl; unresolved calls of a *local* trait's
+    method go to every local impl), functions mentioned as values (callbacks), and closures (from their parent)."""
+    import re
+    G = {}
+    impls = {}
+    for fn in crate.bodies:
+        m = re.match(r"^<(.+) as ([^<>]+(?:<.*>)?)>::(\w+)$", fn)
+        if m:
+            tr = re.sub(r"<.*$", "", m.group(2))
+            if not tr.startswith(("std::", "core::", "alloc::")):
+                impls.setdefault(tr + "::" + m.group(3), []).append(fn)
+    n_edges = 0
+    for fn, b in crate.bodies.items():
+        es = set()
+        if "mir" in b:
+            for i, t in common.mir_calls(b, lambda c: True):
+                for key in ("fwd", "inst", "callee"):
+                    c = common.facts_norm(t.get(key) or "")
+                    if c in crate.bodies:
+                        es.add(c)
+                        break
+                c = common.facts_norm(t.get("callee") or "")
+                if not t.get("inst") and c in impls:
+                    es.update(impls[c])
+        if "hir" in b:
+            for n in common.hir_walk(b["hir"]):
+                if n["k"] == "Path" and n.get("dk") in ("Fn", "AssocFn"):
+                    d = common.facts_norm(n.get("def") or "")
+                    if d in crate.bodies:
+                        es.add(d)
+        G[fn] = es
+        n_edges += len(es)
+    for fn in list(G):
+        if "{closure" in fn:
+            par = fn.split("::{closure")[0]
+            if par in G:
+                G[par].add(fn)
+    return G, n_edges
+
+
+def sccs(G):
+    """non-trivial strongly connected components (iterative Tarjan)"""
+    index = {}
+    low = {}
+    on = set()
+    stack = []
+    out = []
+    counter = [0]
+    for root in G:
+        if root in index:
+            continue
+        work = [(root, iter(sorted(G.get(root, ()))))]
+        index[root] = low[root] = counter[0]
+        counter[0] += 1
+        stack.append(root)
+        on.add(root)
+        while work:
+            v, it = work[-1]
+            adv = False
+            for w in it:
+                if w not in G:
+                    continue
+                if w not in index:
+                    index[w] = low[w] = counter[0]
+                    counter[0] += 1
+                    stack.append(w)
+                    on.add(w)
+                    work.append((w, iter(sorted(G.get(w, ())))))
+                    adv = True
+                    break
+                elif w in on:
+                    low[v] = min(low[v], index[w])
+            if adv:
+                continue
+            work.pop()
+            if work:
+                u = work[-1][0]
+                low[u] = min(low[u], low[v])
+            if low[v] == index[v]:
+                comp = []
+                while True:
+                    w = stack.pop()
+                    on.discard(w)
+                    comp.append(w)
+                    if w == v:
+                        break
+                if len(comp) > 1 or v in G.get(v, ()):
+                    out.append(sorted(comp))
+    return out
+
+
+def termination(cfg, crate, rep):
+    G, n_edges = call_graph(crate)
+    live = {fn for fn in G if not common.is_test_fn(fn)}
+    comps = [c for c in sccs(G) if any(f in live for f in c)]
+    rep.ob("C10.term", "%s|call-graph-acyclic" % cfg, all(tuple(c) in RECURSION_AUDIT for c in comps),
+           "the resolved local call graph has no cycle outside the audited ones (recursion on attacker-controlled input is unbounded stack use: abort, not Err)",
+           found=[c for c in comps if tuple(c) not in RECURSION_AUDIT][:4])
+    for c in comps:
+        if tuple(c) not in RECURSION_AUDIT:
+            rep.fail("C10.term", "%s|cycle|%s" % (cfg, " -> ".join(c)), "call cycle: %s" % " -> ".join(c + [c[0]]), sp=crate.bodies[c[0]].get("sp"))
+    n_for = 0
+    for fn, b in crate.bodies.items():
+        if "hir" not in b or fn not in live:
+            continue
+        for n in common.hir_walk(b["hir"]):
+            if n["k"] in ("Loop", "While"):
+                rep.ob("C10.term", "%s|loop|%s" % (cfg, fn), fn in LOOP_AUDIT, "`loop` / `while` statements are audited for termination (none exist in the audited tree)", sp=n.get("sp"))
+            elif n["k"] == "For":
+                n_for += 1
+                ity = (n.get("iter") or {}).get("ty", "")
+                bad = [x for x in INFINITE_ITER if x in ity]
+                rep.ob("C10.term", "%s|for|%s|finite-iterator" % (cfg, fn), not bad, "`for` loops iterate finite std iterators (no repeat / cycle / open range sources)", found=ity[:120], sp=n.get("sp"))
+    rep.floor("C10.term", "call-graph edges (%s)" % cfg, n_edges, 4 if cfg.endswith(":lib") else (20 if cfg.endswith(":bin") else 180))
+    rep.floor("C10.term", "functions in the call graph (%s)" % cfg, len(G), 10 if cfg.endswith(":lib") else (30 if cfg.endswith(":bin") else 400))
+    rep.sample({"rule": "C10.term", "cfg": cfg, "functions": len(G), "edges": n_edges, "cycles": len(comps), "for_loops": n_for})
+
+
+
 def run(ctx):
     rep = ctx.rep
     total = 0
@@ -402,10 +535,12 @@ def run(ctx):
         if cfg in ("K4", "K5"):
             for cname, f in (("rustls_cert_gen", "rustls_cert_gen.lib.json"), ("rustls_cert_gen", "rustls_cert_gen.bin.json")):
                 total += audit(cfg + ":" + f.split(".")[1], ctx.crate(cfg, f), cname, rep)
+                termination(cfg + ":" + f.split(".")[1], ctx.crate(cfg, f), rep)
             continue
         crate = ctx.crate(cfg)
         total += audit(cfg, crate, "rcgen", rep)
         sinks(cfg, crate, rep)
+        termination(cfg, crate, rep)
     rep.floor("C10.audit", "explicit panic sites enumerated", total, 60)
     # the sink model is frozen from one yasna version
     import os
